@@ -140,3 +140,72 @@ def _fpmul_spec(c, I, W, O):
 
 block('FPMult_SP', props=('C13',), file=F, make=_mk_fpmul, spec=_fpmul_spec, swap=('a', 'b'), opaque_mul=True,
       requires=lambda c, I: [_fpmul_domain(I)[2]], cfgs=lambda t: [dict()], timeout=300)
+
+
+# ---------------------------------------------------------------------------------------------- adder
+def _mk_fpadd(s, c):
+    a = s.wire('a', 32); b = s.wire('b', 32); r = s.wire('r', 32)
+    return FP.FPAdder_SP(s, 'dut', a, b, r), {'a': a, 'b': b}, {'r': r}
+
+
+GUARD = 26      # fractional bits kept below the smaller operand's last place, so that every quantity is an integer
+
+
+def _fpadd_terms(c, I):
+    """everything in units of 2**(e_small - 150 - GUARD), where e_small is the smaller exponent; the slice fixes
+    gap = e_large - e_small and which operand carries the larger exponent"""
+    g = c['gap']
+    big, small = ('a', 'b') if c['larger'] == 'a' else ('b', 'a')
+    sB, eB, fB = parts(I[big]); sS, eS, fS = parts(I[small])
+    MB = add(1 << 23, fB); MS = add(1 << 23, fS)
+    vB = mul(MB, 1 << (g + GUARD)); vS = mul(MS, 1 << GUARD)
+    exact = add(ite(eq(sB, 1), neg(vB), vB), ite(eq(sS, 1), neg(vS), vS))
+    slice_ = eq(eB, add(eS, g))
+    if c.get('op') == 'add': slice_ = band_(slice_, eq(sB, sS))
+    if c.get('op') == 'sub': slice_ = band_(slice_, ne(sB, sS))
+    if c.get('top') is not None:
+        # |exact| in [2**top, 2**(top+1)): position of the leading bit of the exact sum (cancellation depth)
+        slice_ = band_(slice_, ge(absval(exact), 1 << c['top']), lt(absval(exact), 1 << (c['top'] + 1)))
+    # exact result normal: 2**-126 <= |exact| * 2**(eS - 150 - GUARD) < 2**128
+    ae = absval(exact)
+    lo_ok = ite(le(eS, 24 + GUARD), ge(ae, pow2(ir.clamp(sub(24 + GUARD, eS), 0, 24 + GUARD))), ne(ae, 0))
+    hi_ok = lt(ae, pow2(ir.clamp(sub(278 + GUARD, eS), 0, 278 + GUARD)))
+    dom = band_(normal(I['a']), normal(I['b']), slice_, lo_ok, hi_ok)
+    return exact, eS, dom
+
+
+def _fpadd_spec(c, I, W, O):
+    g = c['gap']
+    exact, eS, dom = _fpadd_terms(c, I)
+    sr, er, fr = parts(O['r'])
+    d = add(sub(er, eS), GUARD)                       # r = (2**23+fr) << d  in the same units
+    okd = band_(ge(d, 0), le(d, g + GUARD + 2))
+    Rm = shl(add(1 << 23, fr), ir.clamp(d, 0, g + GUARD + 2))
+    Rv = ite(eq(sr, 1), neg(Rm), Rm)
+    ulp_larger = 1 << (g + GUARD)
+    return {'pred:sign-of-exact-sum': eq(sr, b2i(lt(exact, 0))),
+            'pred:error-below-two-ulp-of-larger-operand': band_(okd, lt(absval(sub(Rv, exact)), 2 * ulp_larger)),
+            'pred:commutative': eq(O['r'], O["r'"])}
+
+
+def _fpadd_cfgs(t):
+    gaps = [0, 1, 2, 3] + list(range(22, 34)) + [64, 128, 253] if t == 'quick' else list(range(0, 254))
+    return [dict(gap=g, larger=l, op=op) for g in gaps for l in (('a', 'b') if g else ('a',)) for op in ('add', 'sub')]
+
+
+_MANT = [0, 1, 2, 3, (1 << 23) - 1, (1 << 23) - 2, 1 << 22, (1 << 22) - 1, (1 << 22) + 1, 0x2AAAAA, 0x555555]
+
+
+def _fpadd_sampler(c, rnd):
+    g = c['gap']
+    eS = rnd.choice([1, 2, 24, 25, 26, 27, 100, 127, 128, 200, 254 - g, max(1, 253 - g), rnd.randint(1, 254 - g)])
+    eS = min(max(eS, 1), 254 - g); eB = eS + g
+    fS = rnd.choice(_MANT + [rnd.getrandbits(23), rnd.getrandbits(23)]); fB = rnd.choice(_MANT + [rnd.getrandbits(23), rnd.getrandbits(23)])
+    if rnd.random() < 0.3: fS = (fB + rnd.choice([-2, -1, 0, 1, 2])) % (1 << 23)     # near-cancellation
+    sB = rnd.getrandbits(1); sS = sB if c.get('op') == 'add' else 1 - sB if c.get('op') == 'sub' else rnd.getrandbits(1)
+    big = (sB << 31) | (eB << 23) | fB; small = (sS << 31) | (eS << 23) | fS
+    return {'in:a': big, 'in:b': small} if c['larger'] == 'a' else {'in:a': small, 'in:b': big}
+
+
+block('FPAdder_SP', props=('C13',), file=F, make=_mk_fpadd, spec=_fpadd_spec, swap=('a', 'b'), sampler=_fpadd_sampler, no_cvc5=True,
+      requires=lambda c, I: [_fpadd_terms(c, I)[2]], cfgs=_fpadd_cfgs, timeout=lambda t: 45 if t == 'quick' else 400)
